@@ -277,6 +277,12 @@ pub fn field_variants(t: &mut Tape, plan: &XzPlan) -> Vec<(XzPlan, &'static str,
                 v.push((p, "block.pad", format!("block {} padding byte {} non-zero", bi, i)));
             }
         }
+        for pad in multi_pads(t, padn) {
+            let mut p = plan.clone();
+            let note = format!("block {} padding bytes {:02x?}", bi, pad);
+            p.blocks[bi].ov_bpad = Some(pad);
+            v.push((p, "block.pad", note));
+        }
         {
             // padding of the wrong length (zeros)
             let mut p = plan.clone();
@@ -314,8 +320,44 @@ pub fn field_variants(t: &mut Tape, plan: &XzPlan) -> Vec<(XzPlan, &'static str,
             p.ov_index_pad = Some(pad);
             v.push((p, "index.pad", format!("index padding byte {} non-zero", i)));
         }
+        // several non-zero bytes at once (equal bytes, bytes that cancel under xor / sum)
+        for pad in multi_pads(t, f.len) {
+            let mut p = plan.clone();
+            let note = format!("index padding bytes {:02x?}", pad);
+            p.ov_index_pad = Some(pad);
+            v.push((p, "index.pad", note));
+        }
     }
     v
+}
+
+/// Paddings of `n` >= 2 bytes with more than one non-zero byte: all equal, first
+/// and last equal, xor-cancelling, sum-cancelling, all 0xFF.
+fn multi_pads(t: &mut Tape, n: usize) -> Vec<Vec<u8>> {
+    let mut out = Vec::new();
+    if n < 2 {
+        return out;
+    }
+    let a = 1 + t.below(255) as u8;
+    let b = 1 + t.below(255) as u8;
+    out.push(vec![a; n]);
+    out.push(vec![0xFF; n]);
+    let mut p = vec![0u8; n];
+    p[0] = a;
+    p[n - 1] = a;
+    out.push(p);
+    let mut p = vec![0u8; n];
+    p[0] = a;
+    p[1] = a.wrapping_neg();
+    out.push(p);
+    if n >= 3 {
+        out.push(vec![a, b, a ^ b]);
+        let mut p = vec![a, b, 0];
+        p[2] = a.wrapping_add(b).wrapping_neg();
+        out.push(p);
+    }
+    out.retain(|p| p.iter().any(|x| *x != 0));
+    out
 }
 
 fn exec_one(sc: &Scenario, ctx: &mut Ctx) -> Vec<Violation> {
@@ -399,7 +441,7 @@ impl Property for C06 {
         "fault_enumeration"
     }
     fn rule(&self) -> &'static str {
-        "per seeded valid .xz file (0-3 blocks, check None/CRC32/CRC64, optional fields, paddings): (a) one bit flipped — every bit position in the thorough tier, a sample in quick; (b) truncation at every (sampled) offset; (c) every integrity/size field (magics, stream flags, the 4 kinds of CRC32, backward size, index count and records (also two records wrong together with both column sums preserved), declared block sizes, size byte, all paddings, check field) replaced by values from {0, 1, true±1, true+4, true+2^30·k, true+2^32, 2^31, 2^32-1, 2^63-1, random} with every enclosing CRC recomputed. One evaluation = one mutated file through xz_decompress (reader rotating over: slice, 1-byte refills, fixed k, irregular refills); Ok obliges (1) the field-exact judge to confirm every listed field against the delivered bytes and (2) for CRC32/CRC64 files delivered == original; all cases distinct by scenario hash and non-trivial"
+        "per seeded valid .xz file (0-3 blocks, check None/CRC32/CRC64, optional fields, paddings): (a) one bit flipped — every bit position in the thorough tier, a sample in quick; (b) truncation at every (sampled) offset; (c) every integrity/size field (magics, stream flags, the 4 kinds of CRC32, backward size, index count and records (also two records wrong together with both column sums preserved), declared block sizes, size byte, all paddings (one byte non-zero; several at once: equal, cancelling under xor or sum, all 0xFF), check field) replaced by values from {0, 1, true±1, true+4, true+2^30·k, true+2^32, 2^31, 2^32-1, 2^63-1, random} with every enclosing CRC recomputed. One evaluation = one mutated file through xz_decompress (reader rotating over: slice, 1-byte refills, fixed k, irregular refills); Ok obliges (1) the field-exact judge to confirm every listed field against the delivered bytes and (2) for CRC32/CRC64 files delivered == original; all cases distinct by scenario hash and non-trivial"
     }
     fn runs(&self, tier: Tier) -> u64 {
         match tier {
